@@ -19,6 +19,8 @@ def run_native(n_waiters, second, status0, seq):
                 obs['waiters'][w] = {x.split('=')[0]: int(x.split('=')[1]) for x in v.split(';')}
         elif k in ('final_status', 'sup_events', 'child_signalled'):
             obs[k] = int(v)
+        elif k == 'status_samples':
+            obs[k] = [int(x) for x in v.split(',') if x]
     obs['log'] = out.get('log', '')
     return obs
 
@@ -36,6 +38,9 @@ def concrete_oracle(obs):
             bad.append('w%d.returns_only_after_full_stop' % w)
     if obs.get('final_status') != 6:
         bad.append('final_status_stopped')
+    ss = obs.get('status_samples', []) + [obs.get('final_status', 0)]
+    if any(b < a for a, b in zip(ss, ss[1:])):
+        bad.append('status_never_decreases')
     if obs.get('sup_events', 0) != 1:
         bad.append('once.supervisor_notified')
     return bad
